@@ -42,6 +42,11 @@ func (k *KeepAlive) sendKeepAlive() {
 	conns := k.context.ActiveConnections()
 	var empty = new(bytes.Buffer)
 	for _, conn := range conns {
+		// A controller which is still pairing expects nothing but responses
+		if sess := k.context.GetSessionForConnection(conn); sess == nil || sess.Encrypter() == nil {
+			continue
+		}
+
 		resp := NewNotification(empty)
 
 		var buffer = new(bytes.Buffer)
@@ -49,6 +54,10 @@ func (k *KeepAlive) sendKeepAlive() {
 		bytes, _ := ioutil.ReadAll(buffer)
 		bytes = FixProtocolSpecifier(bytes)
 		log.Debug.Printf("Keep alive %s <- %s", conn.RemoteAddr(), string(bytes))
-		conn.Write(bytes)
+		if c, ok := conn.(*Connection); ok == true {
+			c.WriteEvent(bytes)
+		} else {
+			conn.Write(bytes)
+		}
 	}
 }
